@@ -25,6 +25,8 @@ from fractions import Fraction
 
 import numpy as np
 
+from pwlib.share import shcopy
+
 from pwlib import gens
 from pwlib.canon import flat
 from pwlib.engine import Case
@@ -154,6 +156,10 @@ def build(spec):
         return vs, ref, nrm
     # float
     scale = gens.scale_of(rng)
+    if rng.random() < 0.12:
+        # very large / very small geometry: still far from overflow for sums and differences of coordinates and for ratios
+        # of signed distances, but not for a product of two of them
+        scale = 10.0 ** (rng.choice([-1, 1]) * rng.uniform(120, 250))
     axis_aligned = rng.random() < 0.3
     if axis_aligned:
         nrm = list(rng.choice(gens.AXES))
@@ -376,18 +382,18 @@ def make_near(spec):
     else:
         vs, ref, nrm = build_near(spec)
     closed = bool(spec["closed"])
-    V = np.array(vs, dtype=np.float64).reshape(-1, 3)
+    V = np.array(np.reshape(vs, (-1, 3)), dtype=np.float64)
     plane = Plane(np.array(ref, dtype=np.float64), np.array(nrm, dtype=np.float64))
     scale = max(gens.maxabs(V, ref), 1e-300)
-    signs = [int(x) for x in np.atleast_1d(plane.sign(V.copy()))] if len(V) else []
-    dist = [float(x) for x in np.atleast_1d(plane.signed_distance(V.copy()))] if len(V) else []
+    signs = [int(x) for x in np.atleast_1d(plane.sign(shcopy(V)))] if len(V) else []
+    dist = [float(x) for x in np.atleast_1d(plane.signed_distance(shcopy(V)))] if len(V) else []
     cat, e = category(vs, ref, nrm, closed, signs)
     tol = Fraction(1e-9) * Fraction(scale)
     nearcount = sum(1 for p in vs if abs(exact_d(p, ref, nrm)) <= Fraction(1e-12) * Fraction(scale))
     kl = "%s/%s/%s/%s" % (spec["op"], "closed" if closed else "open", cat, "near%d" % min(nearcount, 3))
 
     def impl_poly():
-        r = Polyline(V.copy(), is_closed=closed).sliced_by_plane(plane)
+        r = Polyline(shcopy(V), is_closed=closed).sliced_by_plane(plane)
         return [bool(r.is_closed), int(len(r.v))] + flat(r.v)
 
     line = Line("slice.given").b(closed).i(len(vs))
@@ -413,7 +419,7 @@ def make(spec):
     from polliwog.polyline._slice_by_plane import slice_open_polyline_by_plane
     vs, ref, nrm = build(spec)
     closed = bool(spec["closed"])
-    V = np.array(vs, dtype=np.float64).reshape(-1, 3)
+    V = np.array(np.reshape(vs, (-1, 3)), dtype=np.float64)
     plane = Plane(np.array(ref, dtype=np.float64), np.array(nrm, dtype=np.float64))
     scale = max(gens.maxabs(V, ref), 1e-300)
     cat, e = category(vs, ref, nrm, closed)
@@ -424,11 +430,11 @@ def make(spec):
     trivial = len(vs) == 0
 
     def impl_poly():
-        r = Polyline(V.copy(), is_closed=closed).sliced_by_plane(plane)
+        r = Polyline(shcopy(V), is_closed=closed).sliced_by_plane(plane)
         return [bool(r.is_closed), int(len(r.v))] + flat(r.v)
 
     def impl_open():
-        r = slice_open_polyline_by_plane(V.copy(), plane)
+        r = slice_open_polyline_by_plane(shcopy(V), plane)
         return [int(len(r))] + flat(r)
 
     def args(op):
@@ -501,7 +507,7 @@ def make_isect(spec):
                 return None
 
     def impl():
-        return flat(intersect_segment_with_plane(start_points=S.copy(), segment_vectors=D.copy(), points_on_plane=R.copy(), plane_normals=N.copy()))
+        return flat(intersect_segment_with_plane(start_points=shcopy(S), segment_vectors=shcopy(D), points_on_plane=shcopy(R), plane_normals=shcopy(N)))
 
     rtol = 1e-9
     if t is not None and stream == "float":
